@@ -16,6 +16,7 @@ use std::sync::atomic::{AtomicU64, Ordering};
 
 use serde::{Deserialize, Serialize};
 
+use crate::bs::Bs;
 use crate::cli::{Out, Rg, TempDir};
 use crate::runner::{show, Fail, Info, PropCtx, Verdict};
 use crate::tape::Tape;
@@ -1216,9 +1217,136 @@ thread_local! {
     static MEMO: std::cell::RefCell<HashMap<String, Option<Fail>>> = std::cell::RefCell::new(HashMap::new());
 }
 
+// ------------------------------------------------------------ exit_status ---
+
+/// Many tiny files of which none, one or two match, searched over and over with many
+/// threads: the exit status (and the output) must be that of the single-threaded run
+/// every time. Aimed at races in the aggregation of per-file results, which need
+/// "one matching file among many" and many repetitions rather than big trees.
+#[derive(Clone, Debug, Serialize, Deserialize)]
+pub struct ExitCase {
+    pub n_files: usize,
+    /// indices of the files that contain the needle
+    pub matching: Vec<usize>,
+    pub threads: u8,
+    pub runs: u16,
+    /// 0 standard, 1 --count, 2 -l, 3 -q
+    pub mode: u8,
+}
+
+pub fn gen_exit_case(t: &mut Tape, runs: u16) -> ExitCase {
+    let n_files = 30 + t.below(60);
+    let k = t.weighted(&[6, 1, 2]);
+    let matching = match k {
+        0 => vec![t.below(n_files)],
+        1 => vec![],
+        _ => vec![t.below(n_files), t.below(n_files)],
+    };
+    ExitCase { n_files, matching, threads: *t.pick(&[16u8, 8, 4, 12]), runs, mode: t.below(4) as u8 }
+}
+
+/// Failures of `check_exit` that were seen twice, by case: the runner re-executes a failing
+/// case to confirm it, and a race does not show up on demand.
+static EXIT_MEMO: std::sync::Mutex<Option<HashMap<String, Fail>>> = std::sync::Mutex::new(None);
+
+pub fn check_exit(c: &ExitCase) -> Verdict {
+    let key = serde_json::to_string(c).unwrap_or_default();
+    if let Some(f) = EXIT_MEMO.lock().unwrap().as_ref().and_then(|m| m.get(&key).cloned()) {
+        return Verdict::Fail(f);
+    }
+    let dir = TempDir::new("c08e");
+    let _ = std::fs::create_dir_all(dir.path.join("g"));
+    for i in 0..c.n_files {
+        let body: &[u8] = if c.matching.contains(&i) { b"needle\n" } else { b"hay\n" };
+        dir.write(&format!("g/f{i:03}"), body);
+    }
+    let flags: &[&str] = match c.mode {
+        0 => &["-n"],
+        1 => &["--count"],
+        2 => &["-l"],
+        _ => &["-q"],
+    };
+    let mk = |threads: u8, jitter: Option<u32>| {
+        let mut rg = Rg::new(&dir.path).args(["--no-config", "--color", "never"]).arg(format!("-j{threads}")).args(flags.iter().copied()).args(["needle", "g"]);
+        if let Some(j) = jitter {
+            rg = rg.program(&crate::cli::rg_jitter_path()).env("VERIF_YIELD_JITTER", &j.to_string());
+        }
+        rg
+    };
+    let sorted = |out: &[u8]| {
+        let mut v: Vec<Vec<u8>> = out.split(|b| *b == b'\n').filter(|l| !l.is_empty()).map(|l| l.to_vec()).collect();
+        v.sort();
+        v
+    };
+    let reference = mk(1, None).run();
+    if reference.timed_out {
+        return Verdict::Reject("timeout (inconclusive)");
+    }
+    let want = (reference.status, sorted(&reference.stdout));
+    let run_once = |i: u32| -> Option<(Option<i32>, Vec<Vec<u8>>, Vec<u8>)> {
+        // every third run with the hook build, which sleeps at the walker's yield points
+        let o = mk(c.threads, if i % 3 == 2 { Some(i) } else { None }).run();
+        if o.timed_out {
+            return None;
+        }
+        Some((o.status, sorted(&o.stdout), o.stderr))
+    };
+    let mut first_bad: Option<(u32, Option<i32>, Vec<Vec<u8>>, Vec<u8>)> = None;
+    for i in 0..c.runs as u32 {
+        let Some((st, out, err)) = run_once(i) else { return Verdict::Reject("timeout (inconclusive)") };
+        if (st, &out) != (want.0, &want.1) || !err.is_empty() {
+            first_bad = Some((i, st, out, err));
+            break;
+        }
+    }
+    let mut info = Info::new(c.matching.len() == 1);
+    info.class(match c.matching.len() {
+        0 => "no_file_matches",
+        1 => "one_matching_file_among_many",
+        _ => "two_matching_files",
+    });
+    info.class(match c.mode {
+        0 => "mode_standard",
+        1 => "mode_count",
+        2 => "mode_files_with_matches",
+        _ => "mode_quiet",
+    });
+    let Some((i, st, out, err)) = first_bad else { return Verdict::Pass(info) };
+    // seen once: look for a second occurrence before reporting it
+    let mut again = 0;
+    for k in 0..1500u32 {
+        if let Some((st2, out2, err2)) = run_once(1000 + k) {
+            if (st2, &out2) != (want.0, &want.1) || !err2.is_empty() {
+                again += 1;
+                break;
+            }
+        }
+    }
+    let show = |v: &Vec<Vec<u8>>| v.iter().take(6).map(|l| format!("{:?}", Bs(l.clone()))).collect::<Vec<_>>().join(" ");
+    let f = Fail::new(format!(
+        "run #{i} of `{}` differs from the -j1 run: exit status {:?} (with -j1: {:?}), output lines [{}] (with -j1: [{}]), stderr {:?}\n case: {}\n seen again within 1500 further runs: {}",
+        mk(c.threads, None).cmdline(),
+        st,
+        want.0,
+        show(&out),
+        show(&want.1),
+        Bs(err),
+        serde_json::to_string(c).unwrap_or_default(),
+        again > 0
+    ));
+    if again > 0 {
+        let f = f.fact("reproduced");
+        EXIT_MEMO.lock().unwrap().get_or_insert_with(HashMap::new).insert(key, f.clone());
+        Verdict::Fail(f)
+    } else {
+        eprintln!("C08 exit_status: a deviation was seen once and not again: {}", f.detail);
+        Verdict::Reject("a deviation from the -j1 run was seen once and not again in 1500 further runs (inconclusive)")
+    }
+}
+
 pub fn run(pc: &PropCtx) {
     pc.rule(
-        "each case = a generated tree (5-60 files in <= 9 directories up to 3 deep, file sizes 0 B .. ~1 MB with a total of <= ~2 MB, prefix-free paths, needle `hit<n>` on none / one / a few / most lines, optionally one file with a NUL byte, never one that is read through the --pre pipe: there the cut-off point of binary detection depends on read sizes even with -j1), one output mode (standard --heading / --no-heading / with -A/-B context / --passthru, --count / --count-matches (--include-zero), -l / --files-without-match, --json (with context), --files), 0-2 extra flags, a root spelling (implicit cwd, ./, named directory, every top-level entry as an argument), a set of thread counts from {2,3,4,8,16} and R repeats per count; a quarter of the searching cases run every file (or only *.z files) through a generated --pre script that sleeps 0-20 ms per file (from a hash of the file name) before cat. Oracle: the -j1 output is cut into per-file blocks (heading line / path prefix / JSON begin..end) and must itself have exactly the file separator of the mode between blocks (one tolerated, counted deviation of the -j1 printer: no separator in front of a block that is only a `binary file matches` notice); every -jN output must cut the same way into the same set of byte-identical blocks (JSON: after removing elapsed fields; summary equal), each once, separators exactly between blocks, same exit status, empty stderr. Subcheck `sorted`: with --sort path / --sortr path every -jN output is byte-identical to the -j1 output in all repeats and the blocks are in path order. Non-trivial = at least 3 files with output and the block order differed from the -j1 order in at least one run (sorted: the same command without --sort produced a different order); distinct by hash of the case. Schedules are picked by the OS: the claim is `no violation in N perturbed runs`; classes `distinct_orders>=k` and the totals in `notes` measure how much scheduling variety was observed",
+        "each case = a generated tree (5-60 files in <= 9 directories up to 3 deep, file sizes 0 B .. ~1 MB with a total of <= ~2 MB, prefix-free paths, needle `hit<n>` on none / one / a few / most lines, optionally one file with a NUL byte, never one that is read through the --pre pipe: there the cut-off point of binary detection depends on read sizes even with -j1), one output mode (standard --heading / --no-heading / with -A/-B context / --passthru, --count / --count-matches (--include-zero), -l / --files-without-match, --json (with context), --files), 0-2 extra flags, a root spelling (implicit cwd, ./, named directory, every top-level entry as an argument), a set of thread counts from {2,3,4,8,16} and R repeats per count; a quarter of the searching cases run every file (or only *.z files) through a generated --pre script that sleeps 0-20 ms per file (from a hash of the file name) before cat. Oracle: the -j1 output is cut into per-file blocks (heading line / path prefix / JSON begin..end) and must itself have exactly the file separator of the mode between blocks (one tolerated, counted deviation of the -j1 printer: no separator in front of a block that is only a `binary file matches` notice); every -jN output must cut the same way into the same set of byte-identical blocks (JSON: after removing elapsed fields; summary equal), each once, separators exactly between blocks, same exit status, empty stderr. Subcheck `sorted`: with --sort path / --sortr path every -jN output is byte-identical to the -j1 output in all repeats and the blocks are in path order. Subcheck `exit_status`: 30-90 one-line files of which none / one / two contain the needle, searched 60 (thorough: 200) times with 4-16 threads (every third run with the jittered hook build) in standard / --count / -l / -q mode: exit status and the set of output lines must equal the -j1 run every time; a deviation is reported once it has been seen a second time within 1500 further runs. Non-trivial = at least 3 files with output and the block order differed from the -j1 order in at least one run (sorted: the same command without --sort produced a different order); distinct by hash of the case. Schedules are picked by the OS: the claim is `no violation in N perturbed runs`; classes `distinct_orders>=k` and the totals in `notes` measure how much scheduling variety was observed",
     );
     pc.assume("the -j1 run of the same command line is the reference (its own correctness is the subject of C01/C03/C09/C10)");
     pc.assume("/bin/sh, sleep with fractional seconds and cat behave as documented (the --pre script)");
@@ -1304,6 +1432,12 @@ pub fn run(pc: &PropCtx) {
     pc.note(format!("sorted: {sorted_runs} multi-threaded --sort/--sortr runs compared byte for byte with their -j1 reference"));
     pc.count_class("sorted:jN_runs_total", sorted_runs);
 
+    let exit_runs = pc.tier.pick(60u16, 200);
+    let exit_cases = pc.tier.pick(96, 640);
+    pc.run_tape("exit_status", exit_cases, (8, 40), |t| gen_exit_case(t, exit_runs), check_exit);
+    pc.count_class("exit_status:jN_runs_total", exit_cases as u64 * exit_runs as u64);
+    pc.require_class("exit_status:one_matching_file_among_many", exit_cases as u64 / 3);
+
     let unconfirmed = unconfirmed.into_inner().unwrap();
     if let Some(first) = unconfirmed.first() {
         let cut: String = first.chars().take(6000).collect();
@@ -1337,7 +1471,11 @@ pub fn run(pc: &PropCtx) {
     pc.require_class("sorted:unsorted_order_differs_from_sorted", sorted_cases as u64 / 4);
 }
 
-pub fn replay(_pc: &PropCtx, _sub: &str, case: &serde_json::Value) -> Result<Verdict, String> {
+pub fn replay(_pc: &PropCtx, sub: &str, case: &serde_json::Value) -> Result<Verdict, String> {
+    if sub == "exit_status" {
+        let c: ExitCase = serde_json::from_value(case.clone()).map_err(|e| e.to_string())?;
+        return Ok(check_exit(&c));
+    }
     let c: Case = serde_json::from_value(case.clone()).map_err(|e| e.to_string())?;
     Ok(check(&c))
 }
